@@ -1,7 +1,7 @@
 (** C11 - Shadow answers are exact on group-free entries; the ACL report follows its spec. *)
 From V Require Import base.Prelude base.Strs gen.Tables model.Cfg model.Names model.Wildcard
   model.Addr model.Ports model.Ace model.Shading spec.AceSem
-  proofs.WildProofs proofs.AddrProofs proofs.PortsProofs proofs.ShadowProofs.
+  proofs.WildProofs proofs.AddrProofs proofs.PortsProofs proofs.ShadowProofs proofs.ReportProofs.
 Local Open Scope N_scope.
 
 (** exactness: for two group-free entries (each address denotes one wildcard set, contiguous or
@@ -41,11 +41,20 @@ Theorem C11_skipped_kinds : forall pl limit sp a,
   addr_type a = TWildcard \/ addr_type a = TGroup.
 Proof. exact spelled_nc_type. Qed.
 
-(** the ACL-level report equals Acl.shading by definition of shadow_of(); its attribution rule
-    (first top in position order, each shaded text once) is validated against an independent
-    attribution spec on every generated ACL; a general Coq proof of the attribution rule is not
-    part of this development yet *)
-Theorem C11_report_partial : forall (A : Type) (sh : A -> A -> bool) items,
+(** ** the ACL-level report
+    [Acl.shading] on an ACL whose ACE lines are pairwise distinct (inside one ACL the same text is
+    the same entry): a line [v] is listed under the line [k] exactly when the ACE [k] is the FIRST
+    ACE standing before the ACE [v] that shadows it ([first_shader]); every listed line appears
+    once.  So each ACE that some earlier ACE shadows is listed exactly once, under the first such
+    ACE, and nothing else is listed.  [Acl.shadow_of] is the flattened report. *)
+Theorem C11_report : forall (A : Type) (sh : A -> A -> bool) (items : list (item A)),
+  NoDup (map fst (aces_of items)) ->
+  (forall k v, InD k v (shading sh items) <->
+     exists top bot, fst top = k /\ fst bot = v /\ first_shader A sh (aces_of items) top bot)
+  /\ NoDup (ReportProofs.values (shading sh items)).
+Proof. exact shading_spec. Qed.
+
+Theorem C11_report_flat : forall (A : Type) (sh : A -> A -> bool) items,
   shadow_list (shading sh items) = flat_map snd (shading sh items).
 Proof. reflexivity. Qed.
 
